@@ -366,7 +366,7 @@ struct Enc {
 
 impl Enc {
     fn new(depth: ColorDepth) -> Enc {
-        Enc { be: Backend::Plain(TTYEncoder::new(TerminalCaps { depth, ..TerminalCaps::default() })), buf: Vec::with_capacity(64) }
+        Enc { be: Backend::Plain(TTYEncoder::new(caps_of(depth))), buf: Vec::with_capacity(64) }
     }
     fn canned(segments: Vec<Vec<u8>>) -> Enc {
         Enc { be: Backend::Canned(segments.into()), buf: Vec::new() }
@@ -414,17 +414,27 @@ fn glue_cmds(colours: &[[u8; 3]], pairs: &[(usize, usize)]) -> Vec<TerminalComma
     }
     for (f, b) in pairs {
         if let (Some(f), Some(b)) = (colours.get(*f), colours.get(*b)) {
-            cmds.push(TerminalCommand::Face(Face::new(Some(rgba(*f)), Some(rgba(*b)), FaceAttrs::EMPTY)));
+            cmds.push(TerminalCommand::Face(Face { fg: Some(rgba(*f)), bg: Some(rgba(*b)), attrs: FaceAttrs::EMPTY }));
         }
     }
     cmds
 }
 
+/// capabilities written out field by field (no `Default` of the crate involved)
+fn caps_of(depth: ColorDepth) -> TerminalCaps {
+    TerminalCaps { depth, glyphs: false, kitty_keyboard: false }
+}
+
+/// a face modification that changes nothing, every field written out (no `Default` of the crate involved)
+fn fm_none() -> FaceModify {
+    FaceModify { reset: false, fg: None, bg: None, underline: None, underline_color: None, bold: None, italic: None, blink: None, strike: None }
+}
+
 fn role_cmd(c: RGBA, role: usize) -> TerminalCommand {
     let fm = match role {
-        0 => FaceModify { fg: Some(c), ..FaceModify::default() },
-        1 => FaceModify { bg: Some(c), ..FaceModify::default() },
-        _ => FaceModify { underline_color: Some(c), ..FaceModify::default() },
+        0 => FaceModify { fg: Some(c), ..fm_none() },
+        1 => FaceModify { bg: Some(c), ..fm_none() },
+        _ => FaceModify { underline_color: Some(c), ..fm_none() },
     };
     TerminalCommand::FaceModify(fm)
 }
@@ -900,6 +910,98 @@ impl Ctx {
         }
     }
 
+    /// `ColorDepth::from_str` with every documented spelling, `TerminalCaps::default()`, and cross-checks of the
+    /// helpers of the `rasterize` crate the oracle relies on against formulas written here
+    fn helpers_part(&mut self) {
+        // independent table of the documented spellings (case-insensitive, nothing else accepted)
+        let table: [(&str, Option<&str>); 22] = [
+            ("truecolor", Some("true")), ("TrueColor", Some("true")), ("TRUECOLOR", Some("true")), ("24", Some("true")),
+            ("256", Some("8bit")), ("8", Some("8bit")), ("gray", Some("gray")), ("Gray", Some("gray")), ("GRAY", Some("gray")), ("2", Some("gray")),
+            (" gray", None), ("gray ", None), ("grey", None), ("", None), ("16", None), ("true", None), ("24bit", None), ("eightbit", None),
+            ("0", None), ("1", None), ("gray\n", None), ("２", None),
+        ];
+        for (text, want) in table {
+            let got = match guarded(|| text.parse::<ColorDepth>()) {
+                Ok(Ok(d)) => Some(glue::depth_name(d)),
+                Ok(Err(_)) => None,
+                Err(()) => Some("panic"),
+            };
+            self.out.case(&format!("depth-parse {text:?}"), want.is_some());
+            self.out.hist("depth-spelling");
+            self.out.corr(&format!("c20 depth-parse {}", hex(text.as_bytes())), got.unwrap_or("error"));
+            if got != want {
+                self.fail(
+                    "ColorDepth::from_str: a documented spelling of the colour depth is not understood (or an undocumented one is)",
+                    json!({"depth": "parse", "role": "setup", "r": 0, "g": 0, "b": 0, "text": text}),
+                    json!(want.unwrap_or("error")),
+                    json!(got.unwrap_or("error")),
+                );
+            }
+        }
+        // the encoder made from default capabilities serves the depth these capabilities name
+        let caps = TerminalCaps::default();
+        let name = glue::depth_name(caps.depth);
+        self.out.hist(&format!("TerminalCaps::default():{name}"));
+        let mut enc = Enc { be: Backend::Plain(TTYEncoder::new(caps)), buf: Vec::new() };
+        let mut dflt = Enc { be: Backend::Plain(TTYEncoder::default()), buf: Vec::new() };
+        let slot = |s: &mut Ctx, e: &mut Enc| match name {
+            "8bit" => std::mem::swap(&mut s.e8, e),
+            "gray" => std::mem::swap(&mut s.eg, e),
+            _ => std::mem::swap(&mut s.et, e),
+        };
+        for which in 0..2 {
+            self.glue = Some((if which == 0 { "TTYEncoder::new(TerminalCaps::default())" } else { "TTYEncoder::default()" }.to_string(), name.to_string()));
+            let e = if which == 0 { &mut enc } else { &mut dflt };
+            slot(self, e);
+            for c in [[0u8, 0, 0], [255, 255, 255], [0x60, 0x50, 0x70], [0x20, 0xc0, 0x40], [0xeb, 0xdb, 0xb2], [0x5f, 0x87, 0xaf]] {
+                match name {
+                    "8bit" => {
+                        self.eight_bit(c[0], c[1], c[2], false);
+                    }
+                    "gray" => self.gray(c[0], c[1], c[2], false, false),
+                    _ => self.true_color(c[0], c[1], c[2], false),
+                }
+            }
+            let e = if which == 0 { &mut enc } else { &mut dflt };
+            slot(self, e);
+        }
+        self.glue = None;
+        // cross-checks (the `rasterize` crate is outside /repo; the oracle measures with its `distance`, `luma`
+        // and sRGB -> linear conversion): formulas written here must agree
+        let srgb = |c: u8| -> f64 {
+            let s = c as f64 / 255.0;
+            if s <= 0.04045 { s / 12.92 } else { ((s + 0.055) / 1.055).powf(2.4) }
+        };
+        let mut worst = [0f64; 3];
+        for v in 0..=255u8 {
+            worst[0] = worst[0].max((self.t.lin[v as usize] as f64 - srgb(v)).abs());
+        }
+        let mut x = 0x2545_F491_4F6C_DD1Du64;
+        for _ in 0..20_000 {
+            x ^= x << 13;
+            x ^= x >> 7;
+            x ^= x << 17;
+            let (a, b) = ([x as u8, (x >> 8) as u8, (x >> 16) as u8], [(x >> 24) as u8, (x >> 32) as u8, (x >> 40) as u8]);
+            let (ca, cb) = (RGBA::new(a[0], a[1], a[2], 255), RGBA::new(b[0], b[1], b[2], 255));
+            let luma = 0.2126 * (a[0] as f64 / 255.0) + 0.7152 * (a[1] as f64 / 255.0) + 0.0722 * (a[2] as f64 / 255.0);
+            worst[1] = worst[1].max((ca.luma() as f64 - luma).abs());
+            let d2: f64 = (0..3).map(|k| (srgb(a[k]) - srgb(b[k])).powi(2)).sum();
+            worst[2] = worst[2].max((LinColor::from(ca).distance(LinColor::from(cb)) as f64 - d2.sqrt()).abs());
+        }
+        self.out.extra("oracle_helper_cross_check", json!({
+            "max_abs_difference_srgb_to_linear": worst[0], "max_abs_difference_luma": worst[1], "max_abs_difference_distance": worst[2],
+            "bound": 2e-6,
+        }));
+        if worst.iter().any(|w| *w > 2e-6) {
+            self.fail(
+                "oracle cross-check: LinColor::from(RGBA) / Color::luma / LinColor::distance differ from the sRGB, Rec.709 luma and Euclidean formulas written in the harness",
+                json!({"depth": "cross-check", "role": "setup", "r": 0, "g": 0, "b": 0}),
+                json!("all differences <= 2e-6"),
+                json!({"srgb_to_linear": worst[0], "luma": worst[1], "distance": worst[2]}),
+            );
+        }
+    }
+
     /// may this colour be used for correspondence lines under every depth (no decision within rounding)?
     fn glue_ok(&self, c: [u8; 3]) -> bool {
         let (_, t1, t2) = self.tab.best2(self.lin3(c[0], c[1], c[2]));
@@ -941,7 +1043,7 @@ impl Ctx {
         self.out.hist(&format!("glue:{}:reports-{}", plan.name, reported_name));
         self.glue = Some((plan.name.to_string(), reported_name.to_string()));
         // the depth the terminal is served with: what the user configured / what the terminal can show
-        let depth_ok = plan.allowed.is_empty() || plan.allowed.contains(&so.reported);
+        let depth_ok = plan.allowed.is_empty() || plan.allowed.iter().any(|d| glue::depth_name(*d) == reported_name);
         if !depth_ok {
             let first = colours.first().cloned().unwrap_or([0, 0, 0]);
             self.fail(
@@ -1342,7 +1444,7 @@ impl Ctx {
         let cu = RGBA::new(ul[0], ul[1], ul[2], 255);
         let cf = RGBA::new(fg[0], fg[1], fg[2], 255);
         let cb = RGBA::new(bg[0], bg[1], bg[2], 255);
-        let face = Face::new(Some(cf), Some(cb), FaceAttrs::EMPTY);
+        let face = Face { fg: Some(cf), bg: Some(cb), attrs: FaceAttrs::EMPTY };
         let masked = |s: &Ctx, c: [u8; 3]| {
             let (_, t1, t2) = s.tab.best2(s.lin3(c[0], c[1], c[2]));
             t2 <= t1 * (1.0 + TIE_REL) + 1e-13
@@ -1369,7 +1471,7 @@ impl Ctx {
                 bg: Some(cb),
                 underline: if straight { Some(UnderlineStyle::Straight) } else { None },
                 underline_color: Some(cu),
-                ..FaceModify::default()
+                ..fm_none()
             };
             let whole_fm = e.run(TerminalCommand::FaceModify(fm));
             let got_fm = canon(&e.buf, &whole_fm);
@@ -1377,6 +1479,46 @@ impl Ctx {
             let whole = e.run(TerminalCommand::Face(face));
             let got = canon(&e.buf, &whole);
             let eff_face = interpret(&e.buf);
+            let face_bytes = e.buf.clone();
+            // state: a fresh encoder gives the same bytes as the one that has served the whole stream
+            let mut fresh = Enc::new(match depth {
+                0 => ColorDepth::EightBit,
+                1 => ColorDepth::Gray,
+                _ => ColorDepth::TrueColor,
+            });
+            fresh.run(TerminalCommand::Face(face));
+            let fresh_face = fresh.buf.clone();
+            fresh.run(TerminalCommand::FaceModify(fm));
+            let fresh_fm_differs = canon(&fresh.buf, &params(&fresh.buf)) != got_fm;
+            // other commands on the same encoder in between (their output is not judged here)
+            if (fg[1] ^ ul[0]) & 7 == 0 {
+                for cmd in [
+                    TerminalCommand::CursorTo(surf_n_term::Position { row: fg[0] as usize, col: bg[0] as usize }),
+                    TerminalCommand::EraseLine,
+                    TerminalCommand::DecModeSet { enable: fg[2] & 1 == 0, mode: surf_n_term::DecMode::AltScreen },
+                    TerminalCommand::Char('x'),
+                ] {
+                    e.run(cmd);
+                }
+            }
+            // the same colours with attributes, a reset and flags around them: as a terminal reads the result,
+            // the colour selections are the same
+            let attrs = [FaceAttrs::BOLD, FaceAttrs::UNDERLINE_CURLY | FaceAttrs::ITALIC, FaceAttrs::STRIKE | FaceAttrs::REVERSE | FaceAttrs::BLINK,
+                         FaceAttrs::UNDERLINE | FaceAttrs::BOLD, FaceAttrs::UNDERLINE_DASHED][(fg[0] as usize + bg[2] as usize) % 5];
+            e.run(TerminalCommand::Face(Face { fg: Some(cf), bg: Some(cb), attrs }));
+            let eff_face_attrs = interpret(&e.buf);
+            let face_attrs_s = canon(&e.buf, &params(&e.buf));
+            let fm_x = FaceModify {
+                reset: ul[1] & 1 == 0,
+                bold: if ul[1] & 2 == 0 { Some(bg[0] & 1 == 0) } else { None },
+                italic: if ul[1] & 4 == 0 { Some(true) } else { None },
+                strike: if ul[1] & 8 == 0 { Some(false) } else { None },
+                underline: Some([UnderlineStyle::None, UnderlineStyle::Double, UnderlineStyle::Dotted][ul[0] as usize % 3]),
+                ..fm
+            };
+            e.run(TerminalCommand::FaceModify(fm_x));
+            let eff_fm_x = interpret(&e.buf);
+            let fm_x_s = canon(&e.buf, &params(&e.buf));
             let want = match (pf, pb) {
                 (Some(a), Some(b)) => {
                     let mut v = vec![0u32];
@@ -1413,6 +1555,34 @@ impl Ctx {
                         json!({"depth": name, "role": "face", "r": fg[0], "g": fg[1], "b": fg[2], "bg": bg}),
                         json!(want_face.show()),
                         json!({"parameters": got, "selects": eff_face.map(|e| e.show())}),
+                    );
+                }
+            }
+            if fresh_face != face_bytes || fresh_fm_differs {
+                self.fail(
+                    "state carried in the encoder: a fresh encoder of the same depth writes different colour parameters than the encoder that served the stream so far",
+                    json!({"depth": name, "role": "face", "r": fg[0], "g": fg[1], "b": fg[2], "bg": bg, "ul": ul}),
+                    json!(canon(&fresh_face, &params(&fresh_face))),
+                    json!(got),
+                );
+            }
+            if let (Some(f), Some(b), Some(u)) = (eff_f, eff_b, eff_u) {
+                let want = Eff { fg: f.fg, bg: b.bg, ul: None };
+                if eff_face_attrs != Some(want) {
+                    self.fail(
+                        "Face command with attributes: the colour selection in effect (as a terminal reads the parameters) is not, for every role, the reduction of the colour requested for that role",
+                        json!({"depth": name, "role": "face", "r": fg[0], "g": fg[1], "b": fg[2], "bg": bg, "ul": ul}),
+                        json!(want.show()),
+                        json!({"parameters": face_attrs_s, "selects": eff_face_attrs.map(|e| e.show())}),
+                    );
+                }
+                let want = Eff { fg: f.fg, bg: b.bg, ul: u.ul };
+                if eff_fm_x != Some(want) {
+                    self.fail(
+                        "FaceModify with reset / flags / underline style around the colours: the colour selection in effect is not, for every role, the reduction of the colour requested for that role",
+                        json!({"depth": name, "role": "fmod", "r": fg[0], "g": fg[1], "b": fg[2], "bg": bg, "ul": ul}),
+                        json!(want.show()),
+                        json!({"parameters": fm_x_s, "selects": eff_fm_x.map(|e| e.show())}),
                     );
                 }
             }
@@ -1691,6 +1861,9 @@ fn main() {
     if let Some(rep) = &cfg.replay {
         let inp = &rep["failure"]["input"];
         let get = |v: &Value| v.as_u64().unwrap_or(0) as u8;
+        if inp["role"].as_str() == Some("setup") && inp["terminal"].is_null() {
+            ctx.helpers_part();
+        }
         if let Some(plan) = inp["terminal"].as_str() {
             let mut colours = vec![[get(&inp["r"]), get(&inp["g"]), get(&inp["b"])]];
             for key in ["other", "bg"] {
@@ -1724,6 +1897,9 @@ fn main() {
 
     // 0. the private `nearest` on its own
     ctx.nearest_cases(&mut rng, if cfg.thorough { 60_000 } else { 6_000 });
+
+    // 0a. helpers around the mechanism
+    ctx.helpers_part();
 
     // 0b. terminal glue: the real terminal object on a pty, for every detection path
     if cfg.thorough {
